@@ -36,10 +36,11 @@ func NewRLE(step int) *RLE {
 }
 
 func (rle *RLE) SameValueEncoding(in []byte, out []byte) ([]byte, error) {
-	values := util.Bytes2Float64Slice(in)
+	values := util.Bytes2Uint64Slice(in)
 	size := uint16(len(values))
 	out = append(out, uint8(size>>8), uint8(size&0xff))
 
+	// only the all-bits-zero value (+0.0) has the short form; -0.0 keeps its sign
 	if values[0] == 0 {
 		return out, nil
 	}
